@@ -20,9 +20,20 @@ import (
 	"io"
 	"os"
 	"path/filepath"
+	"strings"
 
 	"shanhu.io/g/errcode"
 )
+
+// inDir checks if p is dir itself or a path beneath dir.
+func inDir(dir, p string) bool {
+	rel, err := filepath.Rel(dir, p)
+	if err != nil {
+		return false
+	}
+	const up = ".."
+	return rel != up && !strings.HasPrefix(rel, up+string(filepath.Separator))
+}
 
 func createFile(r io.Reader, name string, mod os.FileMode) error {
 	const fileCreateFlag = os.O_RDWR | os.O_CREATE | os.O_TRUNC
@@ -53,6 +64,11 @@ func writeTarToDir(r io.Reader, destDir string) error {
 			return err
 		}
 		dest := filepath.Join(destDir, filepath.FromSlash(header.Name))
+		if !inDir(destDir, dest) {
+			return errcode.InvalidArgf(
+				"tar entry %q is outside of the destination", header.Name,
+			)
+		}
 
 		switch typ := header.Typeflag; typ {
 		case tar.TypeReg:
